@@ -334,6 +334,9 @@ func (sc *SpecCtx) call(x *SExpr) Val {
 	case "removed": // removed(): ghost count of entries removed from maps / sync.Maps so far
 		e.ghostInit["G|removed"] = "(and (>= $ 0) (< $ 4611686018427387904))"
 		return Val{T: tInt, C: []string{sc.arr("G|removed", "Int")}}
+	case "iterated": // iterated(): ghost count of keys handed out by map range loops / sync.Map.Range so far
+		e.ghostInit["G|iterated"] = "(and (>= $ 0) (< $ 4611686018427387904))"
+		return Val{T: tInt, C: []string{sc.arr("G|iterated", "Int")}}
 	case "visitedCount": // visitedCount(): number of keys the enclosing sync.Map.Range has handed to its callback so far
 		it, ok := sc.vars["$iter"]
 		if !ok || it.It == nil {
